@@ -26,13 +26,14 @@ _expected_class_pattern = re.compile(r"^Expected\s<class '(.*)'>$")
 def _transform_class_to_readable(problem: str):
     match = _expected_class_pattern.match(problem)
     if match:
-        return f"Expected {display_type_by_type.get(match.group(1), match)}"
+        readable = display_type_by_type.get(match.group(1))
+        return f"Expected {readable}" if readable else problem
     return problem
 
 
-_pattern_for_typepy_validation_1 = re.compile(r"^([a-zA-Z0-9_.]+): Got ([^;]*); (.*)$")
-_pattern_for_typepy_validation_2 = re.compile(r"^([a-zA-Z0-9_.]+):\s(.*); Got (.*)$")
-_pattern_for_typepy_validation_3 = re.compile(r"^([a-zA-Z0-9_.]+):\s(.*)$")
+_pattern_for_typepy_validation_1 = re.compile(r"^([\w.]+): Got ([^;]*); (.*)$", re.DOTALL)
+_pattern_for_typepy_validation_2 = re.compile(r"^([\w.]+):\s(.*); Got (.*)$", re.DOTALL)
+_pattern_for_typepy_validation_3 = re.compile(r"^([\w.]+):\s(.*)$", re.DOTALL)
 
 
 def standard_readable_error_for_typedpy_exception(e: Exception, top_level=True):
